@@ -9,6 +9,7 @@ from ..common import get_index, check_equal, check_degree, nf, const_close, merg
 from ..interp import Interp, has_unknown
 from ..plf import Rat, Sym, Fn, find_atoms, show
 from ..report import AnalysisError
+from ..index import norm_text
 
 LEVEL = "proof"
 ATM = "aotools.turbulence.atmos_conversions"
@@ -250,4 +251,15 @@ def run(rep, tier, root=None):
     # ---- I9 the converters are functions of their arguments only (profiles are reused across calls / stacked vs looped)
     purity_obligations(rep, ix, [F(ATM, n) for n in names] + [F(AST_, n) for n in ("photons_per_mag", "photons_per_band", "magnitude_to_flux", "flux_to_magnitude")],
                        "I9.pure", "a profile array passed again (looping over profiles on a shared grid, repeating a call) gives different numbers")
+    # ---- I10 profiles may be integer arrays (altitudes in metres, counts): no integer power of them in their own dtype
+    from ..common import integer_power_hazards
+    for n_ in names:
+        f_ = F(ATM, n_)
+        hz = integer_power_hazards(f_, ("cn2", "h", "v", "slopes"))
+        for node_, txt_ in hz:
+            rep.violation("I10.integer-power", "%s: %s" % (f_.fq, norm_text(node_)[:60]),
+                          txt_ + ": for integer-typed profiles (e.g. altitudes from numpy.arange) the power wraps around silently, "
+                          "so the conversion is not the stated power law for those inputs", f_.where(node_))
+        if not hz:
+            rep.ok("I10.integer-power", f_.fq, "no integer power of a profile array in its own dtype", False)
     rep.floor("C17 obligations", len(rep.obligations), 60)
